@@ -168,8 +168,8 @@ impl<'a> AsciiDecLit<'a> {
         while let Some(k) = self.read_u64() {
             if chunk_contains_8_digits(k) {
                 *coeff = coeff
-                    .wrapping_mul(100000000)
-                    .wrapping_add(chunk_to_u64(k) as u128);
+                    .saturating_mul(100000000)
+                    .saturating_add(chunk_to_u64(k) as u128);
                 // Safety: safe because of call to self.read_u64 above
                 unsafe {
                     self.skip_n(8);
@@ -182,7 +182,7 @@ impl<'a> AsciiDecLit<'a> {
         while let Some(c) = self.first() {
             let d = c.wrapping_sub(b'0');
             if d < 10 {
-                *coeff = coeff.wrapping_mul(10).wrapping_add(d as u128);
+                *coeff = coeff.saturating_mul(10).saturating_add(d as u128);
                 // Safety: safe because of call to self.first above
                 unsafe {
                     self.skip_1();
